@@ -235,6 +235,8 @@ def flags(repo: Repo) -> List[Ob]:
                     shared_sites += 1
                     key = f"flag={flag}->{cname}#{ordinal[cname]}"
                     props = base_props + (("C20",) if flag == "separate_measurement" else ())   # a lost separate_measurement drags the partner (another block) in
+                    if mc[1] == "measure" and "C05" not in props:
+                        props = props + ("C05",)      # a projective measurement of the partner inside a POVM call: its flags are C05's flags
                     passed = None
                     for kw in x.keywords:
                         if kw.arg == flag:
